@@ -26,6 +26,10 @@ class FlatMapFuture(MapFuture):
 
         self.__flattened = True
         self._map_fn = lambda x: x
+        # The error function only applies to the original delegate.  If the
+        # flattened future fails, its exception must be propagated as is
+        # (otherwise error_fn's returned future would become our *result*).
+        self._error_fn = None
         self._set_delegate(result)
 
 
